@@ -145,6 +145,10 @@ impl<T: FromMeta> FromMeta for Override<T> {
         Ok(Explicit(FromMeta::from_list(items)?))
     }
 
+    fn from_expr(expr: &syn::Expr) -> Result<Self> {
+        Ok(Explicit(FromMeta::from_expr(expr)?))
+    }
+
     fn from_value(lit: &Lit) -> Result<Self> {
         Ok(Explicit(FromMeta::from_value(lit)?))
     }
